@@ -82,16 +82,26 @@ func formatFunctionName(name string) string {
 }
 
 func escapeIdentifier(name string) string {
-	if isReservedPythonKeyword(name) || isBuiltInFunction(name) {
+	// `self` is the receiver of every method: a field or an argument can not share its name
+	if isReservedPythonKeyword(name) || isBuiltInFunction(name) || name == "self" {
 		return name + "_val"
 	}
 
-	return name
+	return escapeLeadingDigit(name)
 }
 
 func escapeFunctionName(name string) string {
 	if isReservedPythonKeyword(name) {
 		return name + "_val"
+	}
+
+	return escapeLeadingDigit(name)
+}
+
+// escapeLeadingDigit makes a name that starts with a digit a valid identifier.
+func escapeLeadingDigit(name string) string {
+	if name != "" && name[0] >= '0' && name[0] <= '9' {
+		return "_" + name
 	}
 
 	return name
